@@ -11,7 +11,8 @@ FAMILY = {'legacy': 'legacy', 'p2sh-segwit': 'p2sh_p2wpkh', 'segwit': 'p2wpkh'}
 
 class C09World(WalletWorld):
     OPS = [('issue', 16), ('import_key', 2), ('default_account', 2), ('explicit', 5), ('bulk', 5), ('account', 3), ('mixed', 4), ('scan_gap', 4), ('mark_used', 5),
-           ('handles', 7), ('rebuild', 4), ('watch', 3), ('fund', 2), ('mine', 1), ('arm_crash', 2), ('listing', 4)]
+           ('handles', 7), ('rebuild', 4), ('watch', 3), ('fund', 2), ('mine', 1), ('arm_crash', 2), ('listing', 4),
+           ('second_network', 3)]
 
     def ops_table(self):
         return self.OPS
@@ -249,7 +250,9 @@ class C09World(WalletWorld):
         h = self.H(wi)
         change = ch.index('ex_chg', 2)
         idx = ch.pick('ex_idx', [0, 1, 3, 7, 20])
-        how = ch.pick('ex_how', ['key_for_path', 'address_index', 'keys_for_path_bulk'])
+        how = ch.pick('ex_how', ['key_for_path', 'address_index', 'keys_for_path_bulk', 'key_for_path_full'])
+        if how == 'key_for_path_full' and wi.kind != 'hd':
+            how = 'key_for_path'
         acc = sorted(wi.accounts)[ch.index('acc', len(wi.accounts))]
         if wi.kind == 'watch':
             acc = None
@@ -273,6 +276,17 @@ class C09World(WalletWorld):
             return
         if how == 'key_for_path':
             ok, k = self.call(wi, how, lambda: h.key_for_path([change, idx], account_id=acc))
+        elif how == 'key_for_path_full':
+            # the whole path as a string, no account argument: the account is the one the path names, whatever the
+            # wallet's default account is at the moment
+            others = sorted(a for a in wi.accounts if a != (h.default_account_id or 0))
+            if others:
+                acc = others[ch.index('ex_other_acc', len(others))]
+                wi.explicit.add((acc, wi.wt, change, cos))
+            full = "m/%d'/%d'/%d'/%d/%d" % (PURPOSE[wi.wt], self.coin, acc, change, idx)
+            ok, k = self.call(wi, how, lambda: h.key_for_path(full))
+            if ok and k.path != full:
+                w.violation('explicit_path_not_honoured', {'api': how}, 'asked %s, got %s' % (full, k.path))
         else:
             ok, k = self.call(wi, how, lambda: h.address_index(idx, account_id=acc, change=change))
         if not ok:
@@ -501,6 +515,84 @@ class C09World(WalletWorld):
                                 (wi.name, chain, idx, addr, path, k2.address, k2.path))
         w.outcome('rebuilt', compared=n)
         self.close_handle(r)
+
+    NET2 = {'bitcoin': 'testnet', 'testnet': 'bitcoin', 'litecoin': 'bitcoin', 'litecoin_testnet': 'testnet',
+            'bitcoinlib_test': 'bitcoin'}
+
+    def op_second_network(self, wi):
+        """One wallet, keys on two networks: an account on a second network, then keys of that network through every
+        issuing call that takes a network.  Each returned key must lie at the second network's coin type, carry that
+        network and its address format, and hold the key material of the reference derivation at that path."""
+        ch, w = self.ch, self.w
+        if wi.kind != 'hd':
+            return self.op_issue(wi)
+        h = self.H(wi)
+        net2 = self.NET2[self.network]
+        coin2 = rcodec.NETWORKS[net2]['coin_type']
+
+        def check(k, api, want_change):
+            sig = {'where': api, 'wallet_kind': wi.kind, 'network': 'second'}
+            if k.network.name != net2:
+                w.violation('key_on_other_network', {'api': api},
+                            '%s: asked a key on %s, got %s on %s (%s)' % (wi.name, net2, k.path, k.network.name, k.address))
+                return
+            if k.depth != 5:
+                return
+            acc, chg, idx = k.account_id or 0, k.change or 0, k.address_index
+            want = "m/%d'/%d'/%d'/%d/%d" % (PURPOSE[wi.wt], coin2, acc, chg, idx)
+            if k.path != want:
+                w.violation('key_not_at_documented_path', dict(sig, field='path'),
+                            '%s: wallet says %s, template for (%s, account %d, change %d, index %d) is %s' %
+                            (wi.name, k.path, net2, acc, chg, idx, want))
+                return
+            if want_change is not None and chg != want_change:
+                w.violation('wrong_chain', {'api': api}, '%s: asked change %d on %s, got %s' % (wi.name, want_change, net2, k.path))
+            node = wi.ref['master'].derive(want)
+            addr = ref_pub_to_address(node.pub, wi.wt, net2)
+            if k.address != addr:
+                w.violation('address_not_from_bip32_derivation', dict(sig, witness=wi.wt),
+                            '%s: %s has address %s, reference derivation on %s gives %s' % (wi.name, k.path, k.address, net2, addr))
+            if k.key_public is not None and bytes(k.key_public) != node.pub:
+                w.violation('key_material_not_from_bip32_derivation', dict(sig, field='public'),
+                            '%s: public key differs from reference derivation' % k.path)
+            w.probe('second_network_key_checked')
+        accs = getattr(wi, 'net2_accounts', None)
+        if not accs:
+            w.op('new_account', wallet=wi.name, network=net2)
+            ok, k = self.call(wi, 'new_account', lambda: h.new_account(network=net2))
+            if not ok:
+                return
+            w.outcome('account', id=k.account_id, path=k.path, network=k.network.name)
+            want = "m/%d'/%d'/%d'" % (PURPOSE[wi.wt], coin2, k.account_id or 0)
+            if k.path != want or k.network.name != net2:
+                w.violation('key_not_at_documented_path', {'where': 'new_account', 'wallet_kind': wi.kind, 'field': 'path',
+                                                           'network': 'second'},
+                            'account key of %s at %s on %s, template %s' % (net2, k.path, k.network.name, want))
+            wi.net2_accounts = {k.account_id or 0}
+            return
+        acc = sorted(accs)[0]
+        how = ch.pick('issue2', ['new_key', 'new_key_change', 'get_key', 'get_key_change', 'get_keys', 'get_keys_change',
+                                 'get_key_change', 'new_keys'])
+        w.op(how, wallet=wi.name, account=acc, network=net2)
+        calls = {
+            'new_key': (lambda: h.new_key(account_id=acc, network=net2), 0),
+            'new_key_change': (lambda: h.new_key_change(account_id=acc, network=net2), 1),
+            'get_key': (lambda: h.get_key(account_id=acc, network=net2), 0),
+            'get_key_change': (lambda: h.get_key_change(account_id=acc, network=net2), 1),
+            'get_keys': (lambda: h.get_keys(account_id=acc, network=net2, number_of_keys=2), 0),
+            'get_keys_change': (lambda: h.get_keys_change(account_id=acc, network=net2, number_of_keys=2), 1),
+            'new_keys': (lambda: h.new_keys(account_id=acc, network=net2, number_of_keys=2), 0),
+        }
+        fn, chg = calls[how]
+        ok, r = self.call(wi, how, fn)
+        if not ok:
+            return
+        ks = r if isinstance(r, list) else [r]
+        w.outcome('keys', paths=[k.path for k in ks], network=[k.network.name for k in ks])
+        for k in ks:
+            check(k, how, chg)
+            if (k.account_id or 0) != acc and k.network.name == net2:
+                w.violation('wrong_chain', {'api': how}, '%s: asked account %d on %s, got %s' % (wi.name, acc, net2, k.path))
 
     def op_extra(self, kind, wi):
         getattr(self, 'op_' + kind)(wi)
